@@ -493,3 +493,32 @@ pub fn replay_json(sc: &Scenario, v: &Violation, out: &RunOut, shrink_runs: usiz
     j.put("minimisation_runs", J::Int(shrink_runs as i64));
     j
 }
+
+/// Parallel slice helper for the RealWorld phases: evaluates `f(i)` for i in 0..n on
+/// all workers; returns the total of the counters and the hit with the smallest index
+/// (so the verdict does not depend on the worker count).
+pub fn par_find<T: Send>(n: u64, f: impl Fn(u64) -> (u64, Option<T>) + Sync) -> (u64, Option<T>) {
+    let next = AtomicU64::new(0);
+    let first_bad = AtomicU64::new(u64::MAX);
+    let count = AtomicU64::new(0);
+    let found: Mutex<Vec<(u64, T)>> = Mutex::new(Vec::new());
+    std::thread::scope(|s| {
+        for _ in 0..workers() {
+            s.spawn(|| loop {
+                let i = next.fetch_add(1, Ordering::Relaxed);
+                if i >= n || i > first_bad.load(Ordering::Relaxed) {
+                    break;
+                }
+                let (c, r) = f(i);
+                count.fetch_add(c, Ordering::Relaxed);
+                if let Some(t) = r {
+                    first_bad.fetch_min(i, Ordering::Relaxed);
+                    found.lock().unwrap().push((i, t));
+                }
+            });
+        }
+    });
+    let mut v = found.into_inner().unwrap();
+    v.sort_by_key(|x| x.0);
+    (count.into_inner(), v.into_iter().next().map(|x| x.1))
+}
